@@ -219,6 +219,34 @@ fn one_case(ctx: &mut Ctx, idx: usize, w: &World, w2: &World) {
     let new = run.new_ms.clone();
     let (ncb, nmb) = ((s.cb as i128 - amount as i128) as u64, (s.mb as i128 + amount as i128) as u64);
     let amt_s = scalar_of_i64(amount);
+    // ---- two same-role elements of two digit proofs moved by +D and -D *before* the challenge is derived, responses
+    // honest for that challenge: each of the two digit proofs is wrong on its own, but every unweighted aggregate of the
+    // eighteen pairing equations (and of the Schnorr equations, for the commitment roles) is unchanged — must be refused
+    {
+        let per_role = if ctx.thorough() { 12 } else { 2 };
+        for role in 0..4usize {
+            for _ in 0..per_role {
+                let f = PayForge::honest(ctx, &old, &new, tok, ncb, nmb);
+                let (a, mut b) = (ctx.prng.gen_range(0..18usize), ctx.prng.gen_range(0..18usize));
+                if a == b { b = (a + 1) % 18; }
+                let dlt = nonzero(&mut ctx.prng);
+                let tweak = |d: &mut PayD| -> bool {
+                    for (k, sg) in [(a, Scalar::one()), (b, -Scalar::one())] {
+                        let p = if k < 9 { &mut d.cbr[k] } else { &mut d.mbr[k - 9] };
+                        match role { 0 => p.s1 += sg * dlt, 1 => p.s2 += sg * dlt, 2 => p.cp.c += sg * dlt, _ => p.cp.t += sg * dlt }
+                        if p.s1 == Scalar::zero() { return false; }
+                    }
+                    true
+                };
+                let mut draft = match f.atoms(ctx, w, &Scalar::zero()) { Some(d) => d, None => return };
+                if !tweak(&mut draft) { continue; }
+                let c1 = match allow_check(ctx, w, &old[1], amount, &s.a.ctx_bytes, &draft, None, "draft") { Some(o) => o.challenge, None => return };
+                let mut d = match f.atoms(ctx, w, &c1) { Some(d) => d, None => return };
+                if !tweak(&mut d) { continue; }
+                let _ = allow_check(ctx, w, &old[1], amount, &s.a.ctx_bytes, &d, Some(false), &format!("compensating-pair-of-digit-{}", ["sigma1", "sigma2", "commitments", "scalar-commitments"][role]));
+            }
+        }
+    }
     let rels: Vec<&str> = vec!["all-relations-hold", "state-channel-id", "close-state-channel-id", "close-tag", "old-revocation-lock", "new-revocation-locks-differ",
         "claimed-nonce", "customer-balance-state-vs-close", "merchant-balance-state-vs-close", "customer-balance-update", "merchant-balance-update",
         "customer-range-link", "merchant-range-link", "customer-digit-signature", "token-tampered", "token-other-message", "customer-balance-negative", "merchant-balance-too-large", "customer-balance-too-large", "merchant-balance-negative",
@@ -313,6 +341,19 @@ fn one_case(ctx: &mut Ctx, idx: usize, w: &World, w2: &World) {
         let expect = r == 0;
         let _ = allow_check(ctx, w, &nonce, amount, &s.a.ctx_bytes, &d, Some(expect), &if r == 0 { "assembled-valid".to_string() } else { format!("violates-{}", rels[r]) });
         if r == 0 {
+            // blinding-factor responses of two sub-proofs in G1 (revocation lock, state, close state) moved by
+            // (w·D, -D) for weights the prover can compute from the challenge — see C01
+            {
+                let cinv = c1.invert().unwrap_or(Scalar::one());
+                for (x, y) in [(0usize, 1usize), (0, 2), (1, 2), (2, 1)] {
+                    let w8 = [Scalar::one(), c1, c1 * c1, cinv][ctx.prng.gen_range(0..4)];
+                    let dl = nonzero(&mut ctx.prng);
+                    let mut d2 = d.clone();
+                    { let p = match x { 0 => &mut d2.rl, 1 => &mut d2.st, _ => &mut d2.cl }; p.zbf += w8 * dl; }
+                    { let p = match y { 0 => &mut d2.rl, 1 => &mut d2.st, _ => &mut d2.cl }; p.zbf -= dl; }
+                    let _ = allow_check(ctx, w, &nonce, amount, &s.a.ctx_bytes, &d2, Some(false), "challenge-weighted-compensating-responses");
+                }
+            }
             for (k, name) in ["token-proof", "revocation-lock-proof", "state-proof", "close-state-proof"].iter().enumerate() {
                 let mut d2 = d.clone();
                 match k { 0 => d2.tok.cp.zbf += Scalar::one(), 1 => d2.rl.zbf += Scalar::one(), 2 => d2.st.zbf += Scalar::one(), _ => d2.cl.zbf += Scalar::one() }
